@@ -29,7 +29,7 @@ import (
 //	                              describe/test/… register under test.Filters, real test.RunWith runs
 //	flt  cli  <tree>  <filters>   the `elk` binary ($VERIF_ELK_BIN) runs `elk test --main …` as a process
 //	flt  files <tree> <filters>   debugging: prints the rendered files
-func init() { hx.RegisterExec("flt", execFilter) }
+func init() { hx.RegisterExec("tfl", execFilter) }
 
 type fItem struct {
 	typ      byte // 'S' suite, 'C' case, 'H' hook
